@@ -988,9 +988,48 @@ func c18Purity(c *bx.Ctx) {
 			}
 			first[st.name] = r
 		}
+		// decoding the value's own encoding (inside an arena with a sentinel tail) must leave
+		// every octet of the buffer, and the octets after it, as they were
+		if wire, err, pan := safeMarshal(p); err == nil && pan == "" && len(wire) > 0 {
+			arena := make([]byte, len(wire)+8)
+			copy(arena, wire)
+			for i := len(wire); i < len(arena); i++ {
+				arena[i] = 0xEE
+			}
+			keep := append([]byte{}, arena...)
+			in := arena[:len(wire):len(arena)]
+			if e := EntryByName("own:" + v.Type); e != nil {
+				_, _ = bx.Guard(func() { _, _ = e.Fn(in) })
+				c.T(1)
+				if !bytes.Equal(arena, keep) {
+					c.Report(keyJoin("C18/purity", v.Type, "Unmarshal", "input-buffer-modified"), v.Type+".Unmarshal modifies its input buffer", bx.Replay{Entry: e.Name, InputHex: bx.Hex(wire), Value: valueString(v), Expected: bx.Short(keep), Observed: bx.Short(arena)})
+					return
+				}
+			}
+			_, _ = bx.Guard(func() { _, _ = rtcp.Unmarshal(in) })
+			c.T(1)
+			if !bytes.Equal(arena, keep) {
+				c.Report(keyJoin("C18/purity", v.Type, "dgram", "input-buffer-modified"), "rtcp.Unmarshal modifies its input buffer", bx.Replay{Entry: "dgram", InputHex: bx.Hex(wire), Value: valueString(v), Expected: bx.Short(keep), Observed: bx.Short(arena)})
+				return
+			}
+		}
 		c.NT()
 	}
 	forD(c, one)
+	// values whose fields exceed their wire width (outside D, inside "all packet values"): whatever
+	// Marshal answers, it must not repair its argument in place
+	for _, b := range ref.Builders(c.Thorough()) {
+		for mode := 0; mode < 2; mode++ {
+			if !c.Mine() {
+				continue
+			}
+			p := b.Make()
+			if ref.OverWidth(p, mode) == 0 {
+				continue
+			}
+			one(ref.V{P: p, Type: b.Type, Shape: b.Shape, Dev: fmt.Sprintf(" over-width-mode-%d", mode)})
+		}
+	}
 	// TWCC with deltas that are not multiples of 250us (a documented quantisation, still well-formed)
 	for _, b := range ref.Builders(c.Thorough()) {
 		if b.Type != "TransportLayerCC" {
